@@ -362,6 +362,22 @@ fn run_fuzz(c: &FuzzCase) -> Outcome {
 		);
 		return o;
 	}
+	// "the number" is an integer, however it is written (the parser is documented to support
+	// integers): 015, +15 and 15 are the same number
+	if let Ok(n) = i32::from_str(s) {
+		if n.to_string() != *s {
+			o.label("non-canonical-integer");
+			let canon = Signal::from_str(&n.to_string());
+			let canon_unix = Signal::from_unix_str(&n.to_string());
+			if !same(&a, &canon) || !same(&Signal::from_unix_str(s), &canon_unix) {
+				o.fail(
+					"integer-spelling",
+					format!("parse({s:?}) = {a:?} but the same integer written {:?} parses to {canon:?}", n.to_string()),
+				);
+				return o;
+			}
+		}
+	}
 	if let Ok(sig) = a {
 		// whatever parses displays to something that parses to the same OS signal
 		let shown = sig.to_string();
@@ -392,6 +408,9 @@ fn fuzz_strategy() -> BoxedStrategy<FuzzCase> {
 		1 => "[ -~]{0,12}".prop_map(|s| FuzzCase { s }),
 		1 => "\\PC{0,8}".prop_map(|s| FuzzCase { s }),
 		1 => (-70i64..200).prop_map(|n| FuzzCase { s: n.to_string() }),
+		1 => (-3i64..70, 0usize..4, 0u8..3).prop_map(|(n, zeros, sign)| FuzzCase {
+			s: format!("{}{}{}", if n < 0 { "-" } else if sign == 1 { "+" } else { "" }, "0".repeat(zeros), n.abs()),
+		}),
 	]
 	.boxed()
 }
@@ -455,5 +474,23 @@ pub fn check(e: &Engine) {
 		&run_fuzz,
 	);
 	e.require_label("arbitrary-strings", "parses", 0.05);
+	e.require_label("arbitrary-strings", "non-canonical-integer", 0.02);
+	let mut spellings = Vec::new();
+	for &num in &sigs {
+		for zeros in 0..4usize {
+			for plus in [false, true] {
+				if zeros > 0 || plus {
+					spellings.push(FuzzCase { s: format!("{}{}{num}", if plus { "+" } else { "" }, "0".repeat(zeros)) });
+				}
+			}
+		}
+	}
+	e.enumerate(
+		"integer-spellings",
+		"every nix signal number written with 0-3 leading zeros and an optional plus sign; oracle: parses like the canonical spelling",
+		true,
+		spellings,
+		&run_fuzz,
+	);
 	e.fuzz_leg("c19_signal", 6000000, 64, "coverage-guided libFuzzer (ASan) over raw strings; oracle inside the target: ASCII case-folding invariance of parsing, display round trip");
 }
